@@ -372,13 +372,69 @@ def r5_edits(rep, src, tier='quick'):
 
 # ---- R2/R3 tokenizers ----------------------------------------------------------------------------
 
+def _tokenizers_on_lines(rep, src):
+    """the two line tokenizers interpreted (sa.heap, decided text, CPython's regex engine where they use one) on a family of value
+    lines: the texts of the tokens, concatenated, are the line; the value tokens are exactly the values the statement defines -- the
+    maximal runs of non-whitespace for the whitespace list, the trimmed non-empty pieces between commas for the comma list -- and
+    every other token is a separator of its kind.  However the tokenizer is written (a pattern with finditer, groupby, split)."""
+    mod = src.mod(TK)
+    blanks = [' ', '\t', '  ', '\x0c', '\u2028', '\xa0', '\x1c', ' \t ']
+    words = ['a', 'b-1', '#x', 'é', '(>=', '1.0)', 'a:b', '[!i386]']
+    ws_lines = ['', ' ', '\t\t', 'a', ' a', 'a ', 'a b', ' a  b\tc ', 'a,b', 'a, b', '#x y']
+    ws_lines += [w1 + b_ + w2 for b_ in blanks for w1, w2 in (('a', 'b'), ('(>=', '1.0)'))] + [b_ + 'x' + b_ for b_ in blanks] + words
+    comma_lines = ['', ' ', ',', 'a', ' a', 'a ', 'a,b', 'a, b', 'a ,b', ' a , b ', 'a,,b', 'a, ,b', ',a', 'a,', ' ,a, ', 'a b, c', 'a (>= 1.0), b [!i386] | c', 'a\tb ,\tc',
+                   'x\u2028y, z', 'x\xa0, y', '#x, y']
+    for fname, lines, kind in (('whitespace_split_tokenizer', ws_lines, 'ws'), ('comma_split_tokenizer', comma_lines, 'comma')):
+        f = src.func('%s:%s' % (TK, fname))
+        rep.saw_func(f)
+        bad = None
+        for line in lines:
+            def tok(kind_):
+                return lambda it_, a, k: it_.h.alloc(kind_, {'text': a[0] if a else {'Deb822CommaToken': ','}.get(kind_)})
+            hooks = {n_: tok(n_) for n_ in mod.classes if n_.startswith('Deb822') and n_.endswith('Token')}
+            hooks['sys.intern'] = lambda it_, a, k: a[0]
+            heap = H.Heap(mod, hooks=hooks)
+            heap.native_regex = True
+            it = H.Interp(heap)
+            try:
+                toks = [(heap.objs[t_.name]['__class__'], heap.objs[t_.name]['text']) for t_ in it.seq(it.call(H.Closure(f.node, {}, None, None), [line]))]
+            except H.Raised as x:
+                bad = bad or 'the line %r makes the tokenizer raise %s (line %d)' % (line, x.exc, x.lineno)
+                continue
+            if any(not isinstance(t_[1], str) for t_ in toks):
+                raise AnalysisError('%s: a token without decided text for the line %r: %r' % (f.site, line, toks))
+            values = [t_[1] for t_ in toks if t_[0] == 'Deb822ValueToken']
+            others = [t_ for t_ in toks if t_[0] != 'Deb822ValueToken']
+            want = line.split() if kind == 'ws' else [x_.strip() for x_ in line.split(',') if x_.strip()]
+            if ''.join(t_[1] for t_ in toks) != line:
+                bad = bad or 'the tokens of the line %r are %r: their texts do not concatenate to the line (text is lost, repeated or re-ordered)' % (line, [t_[1] for t_ in toks])
+            elif values != want:
+                bad = bad or 'the value tokens of the line %r are %r; the values of the line are %r' % (line, values, want)
+            elif any(t_[1] == '' for t_ in toks):
+                bad = bad or 'the line %r gives a token without text' % (line,)
+            elif any(not (t_[1].isspace() or (kind == 'comma' and t_[1] == ',')) for t_ in others):
+                bad = bad or 'the line %r gives the non-value token %r, which is neither whitespace nor the separator' % (line, [t_ for t_ in others if not t_[1].isspace()][:1])
+        what = '%s on %d lines: the tokens tile the line and the value tokens are its values' % (fname, len(lines))
+        if bad:
+            rep.fail('C11.R3', f.site, what, bad, where=f.where)
+        else:
+            rep.ok('C11.R3', f.site, what, 'all lines')
+
+
 def r2_r3_tokenizers(rep, src):
     alpha = rx.alphabet('str')
     nonl = rx.regex_lang(r'[^\n]*', 0, 'fullmatch', alpha=alpha)
     wsonly = rx.regex_lang(r'\s*', 0, 'fullmatch', alpha=alpha)
+    _tokenizers_on_lines(rep, src)
     for rname, fname, must_cover in (('_RE_WHITESPACE_SEPARATED_WORD_LIST', 'whitespace_split_tokenizer', nonl),
                                      ('_RE_COMMA_SEPARATED_WORD_LIST', 'comma_split_tokenizer', nonl)):
-        r = src.regex(TK, rname)
+        try:
+            r = src.regex(TK, rname)
+        except AnalysisError:
+            # this tokenizer is not written with the pattern of the pinned code: what the pattern rules decide on languages (matches
+            # tile the line, groups tile a match, a word holds no separator) is decided for it on the family of lines of
+            # _tokenizers_on_lines only
+            continue
         rep.saw_regex('tokens:' + rname)
         f = src.func('%s:%s' % (TK, fname))
         rep.saw_func(f)
@@ -528,9 +584,16 @@ def r2_r3_tokenizers(rep, src):
             rep.fail('C11.R3', f.site, 'groups are emitted in order', 'the tokenizer does not emit every group of a match once, in order: %s: text is dropped or re-ordered'
                      % '; '.join(sorted(set(problems))[:3]), where=f.where)
     # separator never inside a word
-    rw = src.regex(TK, '_RE_WHITESPACE_SEPARATED_WORD_LIST')
-    rc = src.regex(TK, '_RE_COMMA_SEPARATED_WORD_LIST')
+    def _rx_or_none(nm_):
+        try:
+            return src.regex(TK, nm_)
+        except AnalysisError:
+            return None
+    rw = _rx_or_none('_RE_WHITESPACE_SEPARATED_WORD_LIST')
+    rc = _rx_or_none('_RE_COMMA_SEPARATED_WORD_LIST')
     for r, g, sepname, seppat in ((rw, 'word', 'whitespace', r'(?s:.*)\s(?s:.*)'), (rc, 'word', 'comma', r'(?s:.*),(?s:.*)')):
+        if r is None:
+            continue
         markers = [('open', g), ('close', g)]
         Rm = rx.regex_lang(r['pattern'], r['flags'], 'fullmatch', [g], markers, alpha)
         bad = rx.group_content(alpha, markers, g, rx.regex_lang(seppat, 0, 'fullmatch', alpha=alpha))
@@ -541,14 +604,15 @@ def r2_r3_tokenizers(rep, src):
         else:
             rep.ok('C11.R3', site, 'a word never contains the separator', 'word ∩ Σ*%sΣ* = ∅' % sepname)
     # comma words have no surrounding whitespace (values are reported trimmed)
-    markers = [('open', 'word'), ('close', 'word')]
-    Rm = rx.regex_lang(rc['pattern'], rc['flags'], 'fullmatch', ['word'], markers, alpha)
-    bad = rx.group_content(alpha, markers, 'word', rx.regex_lang(r'\s(?s:.*)|(?s:.*)\s', 0, 'fullmatch', alpha=alpha))
-    w = Rm.intersect(bad).witness()
-    if w is not None:
-        rep.fail('C11.R3', '%s:%s' % (TK, rc['binding']), 'comma-list words are trimmed', 'a word can start or end with whitespace: %r' % w)
-    else:
-        rep.ok('C11.R3', '%s:%s' % (TK, rc['binding']), 'comma-list words are trimmed', 'no leading/trailing whitespace in a word')
+    if rc is not None:
+        markers = [('open', 'word'), ('close', 'word')]
+        Rm = rx.regex_lang(rc['pattern'], rc['flags'], 'fullmatch', ['word'], markers, alpha)
+        bad = rx.group_content(alpha, markers, 'word', rx.regex_lang(r'\s(?s:.*)|(?s:.*)\s', 0, 'fullmatch', alpha=alpha))
+        w = Rm.intersect(bad).witness()
+        if w is not None:
+            rep.fail('C11.R3', '%s:%s' % (TK, rc['binding']), 'comma-list words are trimmed', 'a word can start or end with whitespace: %r' % w)
+        else:
+            rep.ok('C11.R3', '%s:%s' % (TK, rc['binding']), 'comma-list words are trimmed', 'no leading/trailing whitespace in a word')
     # the value-line wrapper: continuation marker, content, newline
     vt = src.func(TK + ':_value_line_tokenizer')
     inner = [n for n in vt.node.body if isinstance(n, ast.FunctionDef)]
@@ -974,6 +1038,56 @@ def r8_memo_slots(rep, src):
         raise AnalysisError('only %d lazily filled attributes found in the parser classes' % n)
 
 
+def r8b_value_texts(rep, src):
+    """the two texts a list value has -- with and without its comment lines -- interpreted (sa.heap) on value elements built from token
+    lists, asked in both orders: the full text is the texts of all tokens, the text without comments the texts of the tokens that
+    are not comment tokens.  Whether a piece of text is a comment is a property of its TOKEN: a value whose own text begins with
+    '#', or has a line that does, keeps it."""
+    mod = src.mod(PM)
+    cname = 'Deb822ParsedValueElement'
+    init = mod.method(cname, '__init__')
+    if init is None:
+        raise AnalysisError('%s:%s.__init__ not found' % (PM, cname))
+    layouts = [('a value that begins with "#" and continues on the next line',
+                [('Deb822ValueToken', '#beta'), ('Deb822NewlineAfterValueToken', '\n'), ('Deb822ValueContinuationToken', ' '), ('Deb822WhitespaceToken', ' '), ('Deb822ValueToken', '(experimental)')]),
+               ('two values with a comment line between them',
+                [('Deb822ValueToken', 'a'), ('Deb822CommaToken', ','), ('Deb822NewlineAfterValueToken', '\n'), ('Deb822CommentToken', '# c\n'), ('Deb822ValueContinuationToken', ' '),
+                 ('Deb822ValueToken', 'b')]),
+               ('a value whose second line begins with "#" after the continuation blank',
+                [('Deb822ValueToken', 'x'), ('Deb822NewlineAfterValueToken', '\n'), ('Deb822ValueContinuationToken', ' '), ('Deb822ValueToken', '#y')]),
+               ('a single token', [('Deb822ValueToken', '#only')])]
+    for label, lay in layouts:
+        full = ''.join(t_ for _c, t_ in lay)
+        bare = ''.join(t_ for c_, t_ in lay if c_ != 'Deb822CommentToken')
+        for order in (('convert_to_text', 'convert_to_text_without_comments'), ('convert_to_text_without_comments', 'convert_to_text'),
+                      ('convert_to_text_without_comments', 'convert_to_text_without_comments')):
+            heap = H.Heap(mod, extra_modules=[src.mod('_util'), src.mod(TK), src.mod('_deb822_repro._util')], hooks={'._init_parent_of_parts': lambda it_, a, k: None})
+            it = H.Interp(heap)
+            toks = [heap.alloc(c_, {'_text': t_, '_parent_element': 'PARENT'}) for c_, t_ in lay]
+            me = heap.alloc(cname, {})
+            what = '%s: %s, then %s' % (label, order[0], order[1])
+            try:
+                it.call(H.Closure(init.node, {}, me, init.cls), [heap.new_list(toks)])
+                got = []
+                for m_ in order:
+                    fn = mod.method(cname, m_)
+                    if fn is None:
+                        raise AnalysisError('%s:%s.%s not found' % (PM, cname, m_))
+                    rep.saw_func(fn)
+                    r_ = it.call(H.Closure(fn.node, {}, me, fn.cls), [])
+                    got.append(r_.concrete() if hasattr(r_, 'concrete') else r_)
+            except H.Raised as x:
+                rep.fail('C11.R8', '%s:%s' % (PM, cname), what, 'raises %s (line %d)' % (x.exc, x.lineno))
+                continue
+            want = [full if m_ == 'convert_to_text' else bare for m_ in order]
+            if got == want:
+                rep.ok('C11.R8', '%s:%s' % (PM, cname), what, '%r / %r' % tuple(got), nontrivial=False)
+            else:
+                k_ = 0 if got[0] != want[0] else 1
+                rep.fail('C11.R8', '%s:%s' % (PM, cname), what, '%s gives %r for the tokens %r; it is %r (%s)' % (
+                    order[k_], got[k_], [t_ for _c, t_ in lay], want[k_], 'the texts of all tokens' if order[k_] == 'convert_to_text' else 'the texts of the tokens that are not comment tokens'))
+
+
 def check(src, rep, tier):
     rep.explanation = ('C11: (R1) call-graph effect analysis in Deb822ParsedTokenList: methods that (transitively) mutate the token list must '
                        '(transitively) store _changed = True, read accessors must do neither, _update_field is called only from __exit__ under '
@@ -987,7 +1101,7 @@ def check(src, rep, tier):
     rep.not_decided = ['the exact whitespace/comment layout the removal heuristics leave behind', 'sort_elements ordering', 'formatter output (reformat_when_finished)']
     rep.need('C11.R1', 15)
     rep.need('C11.R2', 2)
-    rep.need('C11.R3', 10)
+    rep.need('C11.R3', 8)
     rep.need('C11.R4', 5)
     rep.need('C11.R5', 60)
     rep.need('C11.R6', 7)
@@ -1002,5 +1116,6 @@ def check(src, rep, tier):
               'an edited field whose text contains such a character is re-parsed as more lines than it has')
     rep.need('C11.R8', 2)
     rep.guard('C11.R8', r8_memo_slots, src)
+    rep.guard('C11.R8', r8b_value_texts, src)
     rep.need('C11.R7', 15)
     rep.guard('C11.R7', r7_opening_a_view, src)
